@@ -954,11 +954,25 @@ impl FromPlist for Affine {
             Token::String(val) => val,
             _ => return Err(Error::ExpectedString),
         };
-        let raw = &raw[1..raw.len() - 1];
-        let coords: Vec<f64> = raw.split(", ").map(|c| c.parse().unwrap()).collect();
-        Ok(Affine::new([
-            coords[0], coords[1], coords[2], coords[3], coords[4], coords[5],
-        ]))
+        // "{xx, xy, yx, yy, dx, dy}"; anything else is an error, not a panic
+        let raw = raw
+            .trim()
+            .strip_prefix('{')
+            .ok_or(Error::ExpectedOpenBrace)?
+            .strip_suffix('}')
+            .ok_or(Error::ExpectedCloseBrace)?;
+        let coords = raw
+            .split(',')
+            .map(|c| c.trim().parse::<f64>().map_err(|_| Error::ExpectedNumber))
+            .collect::<Result<Vec<_>, _>>()?;
+        let coords: [f64; 6] =
+            coords
+                .try_into()
+                .map_err(|bad: Vec<f64>| Error::UnexpectedNumberOfValues {
+                    value_type: "affine",
+                    actual: bad.len(),
+                })?;
+        Ok(Affine::new(coords))
     }
 }
 
@@ -968,6 +982,17 @@ mod tests {
     use std::collections::BTreeMap;
 
     use super::*;
+
+    #[test]
+    fn malformed_affine_is_an_error_not_a_panic() {
+        let ok: Affine = Tokenizer::new("\"{2, 0, 0, 1.5, 50, 50}\"").parse().unwrap();
+        assert_eq!(ok, Affine::new([2.0, 0.0, 0.0, 1.5, 50.0, 50.0]));
+        let ok: Affine = Tokenizer::new("\"{2,0,0,1.5,50,50}\"").parse().unwrap();
+        assert_eq!(ok, Affine::new([2.0, 0.0, 0.0, 1.5, 50.0, 50.0]));
+        for bad in ["\"\"", "a", "\"{2, 0, 0, 1.5, 50}\"", "\"{2, 0, 0, 1.5, 50, x}\"", "\"{1, 2, 3, 4, 5, 6, 7}\""] {
+            assert!(Tokenizer::new(bad).parse::<Affine>().is_err(), "{bad}");
+        }
+    }
 
     #[test]
     fn deep_nesting_is_an_error_not_a_stack_overflow() {
